@@ -7,6 +7,22 @@ ROOT = os.path.dirname(os.path.dirname(os.path.abspath(__file__)))
 ALL = [f'C{i:02d}' for i in range(1, 21)]
 
 CHECKS = {
+    'C01': dict(
+        engine='M+S', category='model_checking', design_ref='DESIGN.md §4 C01 and §10',
+        technique='assume/guarantee: CrossHair symbolic execution of the real parsing glue on well-formed provenance documents with '
+                  'contract finder patterns; z3 exact bounded regex model (finditer by induction) discharging the finder contract on the '
+                  'live multisec_regex / no_num_sec_regex; rendered descriptions through the real PLSSDesc incl. the pretty_desc round trip',
+        text='S: for each of the four layouts, every well-formed document (1..2 Twp/Rge groups x 1..2 section groups x 5x5 blocks x '
+             'single section / through-range x colon on/off x 3 separators) parses to exactly the template\'s tracts in reading order '
+             '(standardised Twp/Rge/Sec, block verbatim), the layout is deduced and no error flag is raised. M: on block . section group '
+             '(6 section words, 1-2 items, 6 connectives, 3 colon spellings) . block, N <= 32 (44): searching from anywhere in the leading '
+             'block the first multisec_regex match is exactly the section group with number / rightmost / colon groups on the fields, and '
+             'resumed after it no match starts in the trailing block; no_num_sec_regex finds the first section word. API: rendered '
+             'descriptions (3 (5) Twp/Rge spellings x 4 section words x 3 (5) blocks x separators) give the expected tracts, deduced '
+             'layout, no error flag, and PLSSDesc(pretty_desc()) gives the same tracts. Twp/Rge spellings and list expansion are C08 / C05.',
+        note='Blocks in M: letters (no s), fraction signs, slash, comma, space, digits not in first position, not beginning with a list '
+             'connective. A block that starts with a number after the colon is read as another section (known finding, reported as '
+             'KNOWN-FINDING). The composition of the lemmas is a paper argument, cross-checked by the API obligations. k > 2 groups are outside.'),
     'C02': dict(
         engine='S', category='other', design_ref='DESIGN.md §4 C02',
         technique='CrossHair symbolic execution of the real parse_aliquot with symbolic depth integers / break_halves / component '
